@@ -5,6 +5,7 @@ import (
 	"math/big"
 	"net"
 	"os"
+	"sync"
 	"testing"
 
 	"go.uber.org/zap"
@@ -97,7 +98,7 @@ type envT struct {
 
 // install writes the policy through the real manager into the kernel maps and copies the resulting
 // bucket into the native runner. Returns the bucket bytes' key for both directions (as written by Go).
-func (e *envT) install(t *testing.T, q *qos.SubscriberQoS, viaPolicy *radius.QoSPolicy) (egKey, inKey []byte, steps []string) {
+func (e *envT) install(t *testing.T, q *qos.SubscriberQoS, viaPolicy *radius.QoSPolicy, prev ...*qos.SubscriberQoS) (egKey, inKey []byte, steps []string) {
 	for _, name := range []string{"qos_egress", "qos_ingress"} {
 		m := e.k.Coll.Maps[name]
 		var keys [][]byte
@@ -117,6 +118,13 @@ func (e *envT) install(t *testing.T, q *qos.SubscriberQoS, viaPolicy *radius.QoS
 		t.Fatal(err)
 	}
 	mgr.VerifSetMaps(e.k.Coll.Maps["qos_egress"], e.k.Coll.Maps["qos_ingress"], e.k.Coll.Maps["qos_stats_map"])
+	for _, pq := range prev {
+		// the subscriber had another policy before: the new one must replace it completely
+		steps = append(steps, fmt.Sprintf("SetSubscriberQoS(%+v)  [previous policy]", *pq))
+		if err := mgr.SetSubscriberQoS(pq); err != nil {
+			steps = append(steps, "error: "+err.Error())
+		}
+	}
 	if viaPolicy != nil {
 		pm.AddPolicy(viaPolicy)
 		steps = append(steps, fmt.Sprintf("AddPolicy(%+v); SetSubscriberPolicy(%v,%s)", *viaPolicy, q.IP, viaPolicy.Name))
@@ -157,23 +165,38 @@ func frameFor(dir string, subIP net.IP) []byte {
 }
 
 func TestRateLimiter(t *testing.T) {
+	workers := 8
+	var wg sync.WaitGroup
+	for w := 0; w < workers; w++ {
+		w := w
+		wg.Add(1)
+		go func() {
+			defer wg.Done()
+			worker(t, w, workers)
+		}()
+	}
+	wg.Wait()
+}
+
+func worker(t *testing.T, wid, workers int) {
 	k, err := cplane.LoadKernel("qos_ratelimit")
 	if err != nil {
 		run.Violation("bpf/qos_ratelimit.c", "program-loads", "verifier-or-load-error", fmt.Sprintf("loading the working-tree object failed: %v", err), err.Error())
 		return
 	}
 	defer k.Close()
-	nat, err := cplane.Start("qos_ratelimit", os.Getenv("VERIF_BUILD")+"/C19.journal")
+	nat, err := cplane.Start("qos_ratelimit", fmt.Sprintf("%s/C19.%d.journal", os.Getenv("VERIF_BUILD"), wid))
 	if err != nil {
-		t.Fatal(err)
+		t.Error(err)
+		return
 	}
 	defer nat.Close()
 	e := &envT{k: k, nat: nat}
 	rates := []uint64{1000, 8000, 64000, 1_000_000, 10_000_000, 100_000_000, 1_000_000_000, 10_000_000_000, 100_000_000_000}
 	bursts := []uint32{0, 1, 1500, 3000, 65536, 1 << 20, 10 << 20, 1<<32 - 1}
 	origins := []uint64{0, 1_000_000_000, 30 * 86400 * 1_000_000_000, 1 << 62, 1<<63 - 1_000_000_000_000}
-	nSeq := run.Pick(300, 12000)
-	for si := 0; si < nSeq; si++ {
+	nSeq := run.Pick(400, 8000)
+	for si := wid; si < nSeq; si += workers {
 		rng := run.SubRand("seq", si)
 		rate := rates[rng.IntN(len(rates))]
 		if rng.IntN(4) == 0 {
@@ -213,7 +236,11 @@ func TestRateLimiter(t *testing.T) {
 		if rng.IntN(3) == 0 {
 			pol = &radius.QoSPolicy{Name: "p", DownloadBPS: rate, UploadBPS: rate, BurstSize: burst, Priority: q.Priority}
 		}
-		egKey, inKey, steps := e.install(t, q, pol)
+		var prev []*qos.SubscriberQoS
+		if rng.IntN(3) == 0 {
+			prev = append(prev, &qos.SubscriberQoS{IP: subIP, DownloadBPS: 8000 * uint64(1+rng.IntN(1000)), UploadBPS: 8000 * uint64(1+rng.IntN(1000)), BurstBytes: uint32(1500 + rng.IntN(100000)), Priority: 1})
+		}
+		egKey, inKey, steps := e.install(t, q, pol, prev...)
 		// what the control plane documents as the burst for this policy
 		eff := uint64(burst)
 		if burst == 0 {
@@ -242,7 +269,9 @@ func TestRateLimiter(t *testing.T) {
 			}
 		}
 		run.Count("key_probes", 1)
-		if !hit {
+		if !hit && rate == 0 {
+			run.Count("rate_zero_without_bucket", 1) // "no bucket" and "rate 0" both mean unlimited
+		} else if !hit {
 			want := []byte(subIP)
 			got := egKey
 			if dir == "ingress" {
@@ -261,7 +290,7 @@ func TestRateLimiter(t *testing.T) {
 			}
 		}
 		// re-install to reset the bucket state consumed by the probe
-		e.install(t, q, pol)
+		e.install(t, q, pol, prev...)
 		origin := origins[rng.IntN(len(origins))]
 		var tr []cplane.TraceEnt
 		backlogged := false
@@ -298,7 +327,7 @@ func TestRateLimiter(t *testing.T) {
 					gap = 1
 				}
 			}
-			maxN := run.Pick(60000, 400000)
+			maxN := run.Pick(60000, 200000)
 			tEnd := origin + gap*uint64(maxN)
 			if tEnd < origin {
 				tEnd = ^uint64(0)
